@@ -22,7 +22,14 @@ impl Check for C18 {
         let mut rng = Rng::for_case(ctx.seed, "C18", idx);
         let mut case = CamtCase::generate(&mut rng, PARTY_NAMES);
         // one capture-all rule so that payees are filled from the creditor name where present
-        case.config_yaml.push_str("rewrite:\n  - matcher:\n      creditor_name: \"(?P<payee>.+)\"\n  - matcher:\n      domain_sub_family: SALA\n    account: Income:Salary\n");
+        // in one statement in three a catch-all rule assigns an account and flags it pending (the
+        // non-pending salary rule after it clears the entries it matches)
+        let pending_rule = rng.chance(1, 3);
+        case.config_yaml.push_str("rewrite:\n  - matcher:\n      creditor_name: \"(?P<payee>.+)\"\n");
+        if pending_rule {
+            case.config_yaml.push_str("  - matcher:\n      additional_entry_info: \".\"\n    account: Expenses:Matched\n    pending: true\n");
+        }
+        case.config_yaml.push_str("  - matcher:\n      domain_sub_family: SALA\n    account: Income:Salary\n");
         let dir = ctx.scratch.join(format!("c18-{}", idx));
         let Ok((cfg, src)) = case.write(&dir) else {
             rec.skip();
@@ -118,6 +125,25 @@ impl Check for C18 {
                         wit(json!({"output": imp.text})),
                     );
                     return;
+                }
+            }
+            if pending_rule {
+                // the counter-posting of every record: the salary rule's account unflagged, otherwise
+                // the catch-all rule's account (or an Unknown account), flagged pending
+                let counter: Vec<&TreePosting> = t.posts.iter().filter(|p| p.account != case.account && p.account != "Expenses:Commissions").collect();
+                for p in counter {
+                    let salary = p.account == "Income:Salary";
+                    let pending = p.state == '!' || t.state == '!';
+                    if salary == pending {
+                        rec.violation(
+                            "pending-mark-differs",
+                            &format!("{}|{}", class, if salary { "cleared-rule" } else { "pending-rule" }),
+                            &what(&format!("counter-posting to {} is {}marked pending (transaction state `{}`, posting state `{}`)", p.account, if pending { "" } else { "not " }, t.state, p.state)),
+                            wit(json!({"output": imp.text})),
+                        );
+                        return;
+                    }
+                    rec.count(if pending { "counter-posting:pending" } else { "counter-posting:cleared" });
                 }
             }
             let comm: Vec<&TreePosting> = t.posts.iter().filter(|p| p.account == "Expenses:Commissions").collect();
